@@ -412,10 +412,15 @@ pub fn check(id: &str, tier: Tier) -> i32 {
     }
   });
   run.set("non_sc_executions", json!(wexecs.load(Ordering::Relaxed)));
+  // harnesses whose interleavings were all explored by the pass without a bound (not stopped at the cap): the
+  // bounded passes skip them
+  let complete: std::sync::Mutex<std::collections::HashSet<Harness>> = Default::default();
   // ---- pairs without a preemption bound: every interleaving of the two programs up to the commutation of
   // independent actions (sleep sets, sched.rs); complete for the harness unless the per-harness cap is hit
-  if id != "C13" {
-    let pmenu: Vec<P> = if id == "C07" {
+  {
+    let pmenu: Vec<P> = if id == "C13" {
+      vec![]
+    } else if id == "C07" {
       if thorough { vec![P::B16, P::B24, P::U64, P::AB8, P::B16D, P::U64D, P::Dp, P::Disc, P::DpB16, P::B16B16, P::DiscB16] } else { vec![P::B16, P::B24, P::U64, P::B16D, P::U64D, P::Dp, P::Disc] }
     } else if thorough {
       vec![P::B16, P::B24, P::U64, P::AB8, P::B16D, P::U64D, P::Dp, P::DpB16, P::B16B16, P::B24D, P::AB8D]
@@ -432,17 +437,63 @@ pub fn check(id: &str, tier: Tier) -> i32 {
         }
       }
     }
+    if !thorough && id != "C13" {
+      // a few pairs with two operations in one thread (the thorough tier has them all)
+      use TOp::*;
+      let mut extra: Vec<(Vec<TOp>, Vec<TOp>)> = vec![(vec![DropPre(0)], vec![DropPre(1), B(16)]), (vec![B(16)], vec![DropPre(1), B(16)]), (vec![B(16), DropOwn], vec![DropPre(1), B(16)])];
+      if id == "C07" {
+        extra.push((vec![B(16), B(16)], vec![Discard]));
+        extra.push((vec![Discard], vec![DropPre(1), B(16)]));
+      } else {
+        extra.push((vec![U64], vec![DropPre(1), B(16)]));
+      }
+      for fl in [Fl::Optimistic, Fl::Pessimistic] {
+        for (a, b) in &extra {
+          pitems.push(Harness { fl, unify: true, min_seg: 8, cap: 256, shape: if fl == Fl::Pessimistic { 11 } else { 3 }, progs: vec![a.clone(), b.clone()], own_arenas: false, leave: 0, odd: 0, reserved: 0 });
+        }
+      }
+    }
+    if id == "C13" || id == "C12" {
+      // clone / drop programs: every thread owns an arena value (teardown inside the schedule), and values created
+      // concurrently from one shared value
+      use TOp::*;
+      let menu: Vec<Vec<TOp>> = vec![vec![], vec![CloneArena, DropArena], vec![BO(16)], vec![BO(16), DropOwn], vec![B(16), DropOwn, DropArena], vec![DropArena], vec![CloneArena, DropArena, DropArena], vec![BO(24), DropArena, DropOwn], vec![CloneArena, BO(16), DropArena, DropOwn, DropArena]];
+      // (fresh space left: the allocations of these programs are bump allocations; what is explored without a
+      // bound here is the reference counter and the teardown)
+      for fl in [Fl::Optimistic, Fl::None] {
+        for i in 0..menu.len() {
+          for j in i..menu.len() {
+            pitems.push(Harness { fl, unify: fl != Fl::None, min_seg: 8, cap: if fl == Fl::None { 225 } else { 256 }, shape: 0, progs: vec![menu[i].clone(), menu[j].clone()], own_arenas: true, leave: 64, odd: 0, reserved: 0 });
+          }
+        }
+      }
+      let shared: Vec<Vec<TOp>> = vec![vec![CloneArena, DropArena], vec![BO(16), DropOwn], vec![CloneArena, BO(16), DropOwn, DropArena], vec![BO(16)], vec![CloneArena, CloneArena, DropArena, DropArena]];
+      for fl in [Fl::Optimistic, Fl::None] {
+        for i in 0..shared.len() {
+          for j in i..shared.len() {
+            pitems.push(Harness { fl, unify: true, min_seg: 8, cap: 256, shape: 0, progs: vec![shared[i].clone(), shared[j].clone()], own_arenas: false, leave: 64, odd: 0, reserved: 0 });
+          }
+        }
+      }
+    }
     // the longest programs first (they take longest: better balance over the workers)
     pitems.sort_by_key(|h| std::cmp::Reverse(h.progs.iter().map(|p| p.len()).sum::<usize>()));
     let pexecs = AtomicU64::new(0);
     let pblocked = AtomicU64::new(0);
     let pcapped = AtomicU64::new(0);
     let pmax = if thorough { 40_000_000 } else { 1_500_000 };
+    let only = std::env::var("VERIF_POR_FILTER").ok();
     par_for_each(&pitems, |_, h| {
       if run.stopped() {
         return;
       }
-      let xc = ExploreCfg { bound: 255, hb, drain: id == "C02" || id == "C07", prop_of, max_execs: pmax, cache: false, stale: 0, spur: 0, por: true };
+      if let Some(f) = &only {
+        // (debugging knob)
+        if progs_str(&h.progs) != *f {
+          return;
+        }
+      }
+      let xc = ExploreCfg { bound: 255, hb, drain: id == "C02" || id == "C07", prop_of, max_execs: pmax, cache: false, stale: 0, spur, por: true };
       let st = explore(&run, h, &xc, id);
       execs.fetch_add(st.execs, Ordering::Relaxed);
       pexecs.fetch_add(st.execs, Ordering::Relaxed);
@@ -450,18 +501,30 @@ pub fn check(id: &str, tier: Tier) -> i32 {
       events.fetch_add(st.events, Ordering::Relaxed);
       if st.capped {
         pcapped.fetch_add(1, Ordering::Relaxed);
+      } else {
+        complete.lock().unwrap().insert(h.clone());
       }
     });
-    bounds.push(json!({"kind": "pairs without a preemption bound (sleep-set reduction): all interleavings up to commutation of independent actions", "harnesses": pitems.len(), "menu": format!("{:?}", pmenu), "shapes(shape,leave,odd)": shapes, "executions": pexecs.load(Ordering::Relaxed), "of_which_redundant(sleep-set blocked)": pblocked.load(Ordering::Relaxed), "harnesses_stopped_at_the_cap": pcapped.load(Ordering::Relaxed), "cap_per_harness": pmax}));
+    bounds.push(json!({"kind": "pairs without a preemption bound (sleep-set reduction): all interleavings up to commutation of independent actions; alloc/release programs (C02, C07, C12) and clone/drop programs (C12, C13)", "spurious_weak_cas_failures": spur, "harnesses": pitems.len(), "menu": format!("{:?}", pmenu), "shapes(shape,leave,odd)": shapes, "executions": pexecs.load(Ordering::Relaxed), "of_which_redundant(sleep-set blocked)": pblocked.load(Ordering::Relaxed), "harnesses_stopped_at_the_cap": pcapped.load(Ordering::Relaxed), "cap_per_harness": pmax}));
     if pcapped.load(Ordering::Relaxed) > 0 {
       capped.fetch_add(pcapped.load(Ordering::Relaxed), Ordering::Relaxed);
     }
   }
+  let por_all = std::env::var("VERIF_POR_ALL").is_ok();
+  let skipped = AtomicU64::new(0);
   par_for_each(&items, |_, (h, bound)| {
     if run.stopped() {
       return;
     }
-    let xc = ExploreCfg { bound: *bound, hb, drain: id == "C02" || id == "C07", prop_of, max_execs, cache: false, stale: 0, spur, por: false };
+    // (debugging knob: the two-thread harnesses of the bounded passes without a bound instead)
+    if por_all && h.progs.len() != 2 {
+      return;
+    }
+    if !por_all && complete.lock().unwrap().contains(h) {
+      skipped.fetch_add(1, Ordering::Relaxed);
+      return;
+    }
+    let xc = ExploreCfg { bound: if por_all { 255 } else { *bound }, hb, drain: id == "C02" || id == "C07", prop_of, max_execs, cache: false, stale: 0, spur: if por_all { 0 } else { spur }, por: por_all };
     let st = explore(&run, h, &xc, id);
     execs.fetch_add(st.execs, Ordering::Relaxed);
     events.fetch_add(st.events, Ordering::Relaxed);
@@ -472,6 +535,7 @@ pub fn check(id: &str, tier: Tier) -> i32 {
   });
   run.eval(execs.load(Ordering::Relaxed));
   run.trans(events.load(Ordering::Relaxed));
+  run.set("bounded_harnesses_skipped_because_explored_without_a_bound", json!(skipped.load(Ordering::Relaxed)));
   if id == "C12" {
     loom_models(&run);
   }
@@ -528,14 +592,19 @@ pub fn calibp() -> i32 {
     ("B16 || B16,D pess", Fl::Pessimistic, 11, 0, vec![prog(P::B16, 0), prog(P::B16D, 1)]),
     ("B16,B16 || Dp,B16", Fl::Optimistic, 3, 0, vec![prog(P::B16B16, 1), prog(P::DpB16, 0)]),
     ("Disc || B16,D", Fl::Optimistic, 3, 0, vec![vec![Discard], vec![B(16), DropOwn]]),
-    ("B16 || B16 || Dp", Fl::Optimistic, 3, 0, vec![prog(P::B16, 1), prog(P::B16, 2), prog(P::Dp, 0)]),
+    ("own: Clone,DropA || BO16,D", Fl::Optimistic, 3, 1000, vec![vec![CloneArena, DropArena], vec![BO(16), DropOwn]]),
+    ("own: B16,D,DropA || BO24,DropA,D", Fl::Optimistic, 3, 1000, vec![vec![B(16), DropOwn, DropArena], vec![BO(24), DropArena, DropOwn]]),
+    ("own: DropA || Clone,DropA,DropA", Fl::Pessimistic, 3, 1000, vec![vec![DropArena], vec![CloneArena, DropArena, DropArena]]),
   ] {
-    let h = Harness { fl, unify: true, min_seg: 8, cap: 256, shape, progs: progs.clone(), own_arenas: false, leave, odd: 0, reserved: 0 };
+    let own = leave == 1000;
+    let leave = if own { 0 } else { leave };
+    let spur: u8 = std::env::var("CALIB_SPUR").ok().and_then(|s| s.parse().ok()).unwrap_or(0);
+    let h = Harness { fl, unify: true, min_seg: 8, cap: 256, shape, progs: progs.clone(), own_arenas: own, leave, odd: 0, reserved: 0 };
     let collect = |bound: u8, por: bool| {
       PRECISE_PARK.with(|p| p.set(true));
       OUTCOMES.with(|o| *o.borrow_mut() = Some(Default::default()));
       let t0 = std::time::Instant::now();
-      let xc = ExploreCfg { bound, hb: false, drain: false, prop_of: prop_c02, max_execs: 5_000_000, cache: false, stale: 0, spur: 0, por };
+      let xc = ExploreCfg { bound, hb: false, drain: false, prop_of: prop_c02, max_execs: 5_000_000, cache: false, stale: 0, spur, por };
       let st = explore(&run, &h, &xc, "calibp");
       let set = OUTCOMES.with(|o| o.borrow_mut().take().unwrap());
       (st, set, t0.elapsed().as_secs_f64())
